@@ -314,6 +314,50 @@ func mutants(m *msggen.Message, r *rand.Rand, perKind int) []mutant {
 			out = append(out, mutant{kind: "header-after-trailer", fields: f, mustWhen: func(s settings) bool { return s.CheckFieldsOutOfOrder }, accept: []pair{{14, p.node.Tag}}})
 		}
 	}
+	// 8c. body field after the trailer has begun (also when it is the only body field, so that the trailer then
+	// follows the header directly)
+	{
+		c = nil
+		nBody := 0
+		for _, p := range ps {
+			if p.top && p.sect == 1 {
+				nBody++
+			}
+		}
+		for _, p := range plain {
+			if p.top && p.sect == 1 && !quickfix.Tag(p.node.Tag).IsHeader() && !quickfix.Tag(p.node.Tag).IsTrailer() {
+				c = append(c, p)
+			}
+		}
+		hasSig := false
+		for _, f := range fs {
+			if f.Tag == 93 || f.Tag == 89 {
+				hasSig = true
+			}
+		}
+		for _, p := range pick(c) {
+			f := append(clone(fs[:p.idx]), fs[p.idx+1:]...)
+			if !hasSig {
+				f = append(f, fixwire.Field{Tag: 93, Val: "3"}, fixwire.Field{Tag: 89, Val: "abc"})
+			}
+			if r.Intn(2) == 0 {
+				f = append(f, fs[p.idx])
+			} else {
+				// right behind the first trailer field
+				for i := range f {
+					if quickfix.Tag(f[i].Tag).IsTrailer() {
+						f = append(f[:i+1], append(fixwire.Fields{fs[p.idx]}, f[i+1:]...)...)
+						break
+					}
+				}
+			}
+			kind := "body-after-trailer"
+			if nBody == 1 {
+				kind = "body-after-trailer/only-body-field"
+			}
+			out = append(out, mutant{kind: kind, fields: f, mustWhen: func(s settings) bool { return s.CheckFieldsOutOfOrder }, accept: []pair{{14, p.node.Tag}}})
+		}
+	}
 	// 9. group count off by one
 	c = nil
 	for _, p := range ps {
